@@ -135,6 +135,8 @@ declarations:
   - instantiation: <int>
   - instantiation: <double>
 - decl: void order(int a, double b, const std::string &c, bool d)
+- decl: int total(const int *v +rank(1), int n +implied(size(v)))
+- decl: double total(const double *v +rank(1), int n +implied(size(v)))
 - decl: namespace ns
   declarations:
   - decl: int nsf(int a)
@@ -172,6 +174,8 @@ void over(double a);
 int dflt(int a, int b = 2);
 template<typename T> T tmpl(T a);
 void order(int a, double b, const std::string &c, bool d);
+int total(const int *v, int n);
+double total(const double *v, int n);
 namespace ns { int nsf(int a); namespace inner { int innerf(int a); } }
 #endif
 """
@@ -199,6 +203,8 @@ int dflt(int a, int b) { vt_txt("RECV dflt a="); vt_i(a); vt_txt(" b="); vt_i(b)
 template<> int tmpl<int>(int a) { vt_txt("RECV tmpl<int> a="); vt_i(a); vt_txt("\n"); return a + 1; }
 template<> double tmpl<double>(double a) { vt_txt("RECV tmpl<double> a="); vt_d(a); vt_txt("\n"); return a * 2; }
 void order(int a, double b, const std::string &c, bool d) { vt_txt("RECV order a="); vt_i(a); vt_txt(" b="); vt_d(b); vt_txt(" c="); vt_s(c.data(), (long) c.size()); vt_txt(" d="); vt_i(d ? 1 : 0); vt_txt("\n"); }
+int total(const int *v, int n) { int s = 0; vt_txt("RECV total(int) n="); vt_i(n); vt_txt("\n"); for (int i = 0; i < n; i++) s += v[i]; return s; }
+double total(const double *v, int n) { double s = 0; vt_txt("RECV total(double) n="); vt_i(n); vt_txt("\n"); for (int i = 0; i < n; i++) s += v[i]; return s; }
 namespace ns { int nsf(int a) { vt_txt("RECV ns::nsf a="); vt_i(a); vt_txt("\n"); return a + 1; }
 namespace inner { int innerf(int a) { vt_txt("RECV ns::inner::innerf a="); vt_i(a); vt_txt("\n"); return a + 2; } } }
 """
